@@ -2,7 +2,8 @@ SPEC = dict(
     id="C14",
     props_file="Props/C14.v",
     harness=[dict(pkg="pruner", test="TestVerifC14", timeout=600, timeout_thorough=2400),
-             dict(pkg="share/availability/full", test="TestVerifC14Full", timeout=600, timeout_thorough=1200)],
+             dict(pkg="share/availability/full", test="TestVerifC14Full", timeout=600, timeout_thorough=1200),
+             dict(pkg="share/availability/light", test="TestVerifC14Light", timeout=600, timeout_thorough=1800)],
     allowed_axioms=[],
     level_text=("Machine-checked theorems (Coq, no axioms) over an executable model of the pruner: findPruneableHeaders (estimate from the "
                 "configured block time, extension loop, cut), the prune cycle (lastPruned, retryFailed, batch loop with maxHeadersPerLoop, "
@@ -16,7 +17,13 @@ SPEC = dict(
                 "ResetCheckpoint/Stop, real checkpoint persistence) on ~2000 generated histories. Partial: the on-delete hook prunes "
                 "whatever the header store deletes (its safety is the store's obligation); the global completeness theorem covers "
                 "histories without header deletion, the per-cycle theorem covers any state, including a header-store tail that overtook the "
-                "checkpoint (with fix-c14-2 the block at the new tail is pruned too; before it that block was skipped for good); the archival/pruned store effect of "
+                "checkpoint (with fix-c14-2 the block at the new tail is pruned too; before it that block was skipped for good); the light node's "
+                "Pruner.Prune is modelled (Pruner/Light.v: delete every sample the sampling result lists, then the result) and proved, for "
+                "every pattern of DeleteBlock faults and every retry schedule: reported pruned => no sample block and no sampling result left; "
+                "a failed call keeps the sampling result (the only index of the remaining blocks), adds nothing, and the service hands the height "
+                "to Prune on every cycle until a call succeeds; the first fault-free call removes everything; the 'log and continue' variant is "
+                "refuted (success reported with an unindexed block left for good). Tied on every run to the real light ShareAvailability + real "
+                "bitswap getter + real pruner.Service with a fault-injecting blockstore. The archival/pruned store effect of the FULL node's "
                 "Pruner.Prune itself (archival: only the parity quadrant goes and every sample is still served and verifies; pruned and "
                 "archival-then-pruned: the block goes; idempotent) is checked by an implementation oracle on the real store only, not modelled."),
     rule=("one case = one history on the real Service: header chain of 1..50 heights (tail 1, small or large) with regular, faster, slower or "
@@ -26,7 +33,16 @@ SPEC = dict(
           "3..13 events of cycle / head advance / on-delete hook (tail or arbitrary height, optionally with a cycle running inside its Prune "
           "call) / tail removal / graceful restart / crash / reset. Observed after every event: heights handed to Prune with outcome (retry "
           "block compared as a set, batches in order), in-memory and persisted checkpoint (height, failed set). Non-trivial = at least one "
-          "Prune call and (a failure or a restart/crash); distinct = distinct Coq case term."),
+          "Prune call and (a failure or a restart/crash); distinct = distinct Coq case term. "
+          "Light (TestVerifC14Light): one scenario = 2..5 blocks (ODS 1/2/4 or empty, 1..12 samples, 20% sampled only partly) sampled by the real light "
+          "availability through the real bitswap getter, then a head one window ahead; 5 cycles, each a new pruner.Service (Start = one cycle, awaited on "
+          "the header store's Tail call + the checkpoint mutex, Stop), per script a new ShareAvailability after the cycle; datastore wired as the node does "
+          "(contextds: deletes ride the service's write batch) or plain; DeleteBlock faults per height: none / some once / first once / last once / all "
+          "once / transient for 1..3 attempts / one sample permanently / all permanently; every kind once in a directed scenario for both wirings. One L2 "
+          "case = one Prune call (stored samples + index before, fault pattern, verdict, stored samples + index after the cycle); non-trivial = a fault in "
+          "the pattern or a retry. L3 after every cycle: nil verdict leaves nothing; error verdict is in the persisted failed set with the sampling "
+          "result kept; a height handed over and not failed has nothing left; old-enough heights are handed over; in-window heights untouched; failed "
+          "heights retried every cycle; after the faults end everything is gone after exactly one more attempt."),
     trusted_base=[
         "model Pruner/Find.v, Pruner/Cycle.v hand-written after pruner/find.go, pruner/service.go, pruner/checkpoint.go (with fix-c14-1 and fix-c14-2); tied by "
         "harness/pruner/zz_verif_c14_test.go, which drives the real pruner.Service and whose observations are re-computed by the model inside Coq "
@@ -37,7 +53,16 @@ SPEC = dict(
         "time is modelled as integers (ns offsets); Go's time.Duration saturation and uint64 wrap-around are not modelled (the harness keeps all "
         "times within +-10^13 ns and the checkpoint inside the store)",
         "context cancellation inside a cycle, datastore write errors, and metrics are not modelled; Prune's effect on the EDS store "
-        "(full/light availability) is outside this model",
+        "(full availability) is outside this model (implementation oracle only)",
+        "model Pruner/Light.v hand-written after share/availability/light/availability.go Prune: state per height = which listed samples are stored + "
+        "whether the sampling result exists; faults = DeleteBlock errors other than not-found, by call number; tied by "
+        "harness/share/availability/light/zz_verif_c14_light_test.go. Mocked there: the bitswap wire (an in-process exchange reads the real serving "
+        "bitswap.Blockstore over the squares and hands each body to the registered multihash, as the client does), the header store, the datastore "
+        "(in-memory, mutex-wrapped, optionally contextds-wrapped as in nodebuilder), DeleteBlock faults injected above the real blockstore. Not covered: "
+        "faults of the sampling-result Get/Delete, a failing Commit of the service's write batch (findings/C14-batch-commit.md: observed on the "
+        "unchanged tree, the checkpoint advances although no delete became durable), crash without Close (the sampling-result deletion sits in the "
+        "autobatch buffer), sample coordinates (drawn by crypto/rand; the fault patterns are by position, so a seed replays the same pattern on "
+        "different coordinates)",
         "go-header's store deletion protocol (sequential or parallel on-delete calls) is environment: hook calls for arbitrary heights are "
         "covered by the correspondence and the safety/monotonicity theorems, completeness is stated for histories without deletion",
     ],
